@@ -216,11 +216,50 @@ End AF.
 Definition save_ops (ws : list bytes) : list op := map OWrite ws ++ [OClose].
 Definition abort_ops (ws : list bytes) : list op := map OWrite ws ++ [ORollback].
 
-(* registry.close wraps the write of every value in try/except Exception (table
-   T17: SWALLOW_WRITE_ERROR_SITES): an OSError raised by the j-th write is
-   logged, the loop goes on, and close() commits the file without that chunk. *)
+(* An I/O error (OSError) raised by the j-th write, after the first k effects.
+   What happens next is decided by the callers (regenerated table T17,
+   SWALLOW_WRITE_ERROR_SITES = the call sites that wrap fd.write in a try whose
+   handler swallows an OSError): no such site -> the error propagates and the
+   stack unwinds ([interrupted]); a swallowing caller would log it, go on and
+   close() would COMMIT the file without that chunk ([swallowed_ops]; this was
+   registry.close before the fix of finding C17.F44). *)
+Definition write_errors_swallowed : bool :=
+  match gen.T17.SWALLOW_WRITE_ERROR_SITES with [] => false | _ => true end.
 Definition swallowed_ops (ws : list bytes) (j : nat) : list op :=
   save_ops (firstn j ws ++ skipn (S j) ws).
+Definition write_error_effects (cfg : config) (fn tok now : str) (chunk : nat) (f0 : fs)
+    (ws : list bytes) (k : nat) (inited : bool) (j : nat) : list eff :=
+  if write_errors_swallowed then effects cfg fn tok now chunk f0 (swallowed_ops ws j)
+  else interrupted cfg fn tok now chunk f0 (save_ops ws) k inited.
+
+(* ---- dbi.FlatfileMapping.__iter__ (the loader of the file vacuum() rewrites):
+   skip the first line (nextId); every other line is "id:record"; ids starting
+   with '-' are removed records.  A line without ':' or with a non-numeric id
+   raises ValueError (the iteration stops with that exception). ---- *)
+Definition COLON : N := 58.
+Definition MINUS : N := 45.
+Definition LF : N := 10.
+Definition CR : N := 13.
+Fixpoint flat_lines (ls : list str) : res (list (str * str)) :=
+  match ls with
+  | [] => Ok []
+  | l :: rest =>
+      match split1 [COLON] (rstrip [CR; LF] l) with
+      | None => Raise ValueError                       (* unpack of line.split(':', 1) *)
+      | Some (id, rec) =>
+          if startswith [MINUS] id then flat_lines rest
+          else if nonempty id && forallb (fun c => N.leb 48 c && N.leb c 57) id
+               then do r <- flat_lines rest; Ok ((id, rec) :: r)
+               else Raise ValueError                    (* int(id) *)
+      end
+  end.
+(* text cut into lines as a file iterator does (a final piece without LF is a line too) *)
+Definition file_lines (text : str) : list str :=
+  match rev (split_char LF text) with
+  | [] :: r => rev r
+  | _ => split_char LF text
+  end.
+Definition flat_load (text : str) : res (list (str * str)) := flat_lines (tl (file_lines text)).
 
 (* mktemp() returns a hex digest: the contract the naming theorems need *)
 Definition hexdigit (c : N) : bool :=
@@ -279,6 +318,7 @@ Fixpoint states_at (fuel i : nat) (es : list eff) (f : fs) (ks : list nat) (out 
          state = (target temp backup), each () or (bytes); temp is (length) when full_temp = 0
    op 3: same input, states computed as  apply (firstn k es) f0
    op 4: (fn tok now cfg fs0 ops chunk k inited full_temp) -> (effects-of-the-interrupted-flush final-state)
+   op 5: text -> FlatfileMapping records ((id record) ...) or an exception
    op 1: (a b) -> path_join a b ; op 2: s -> basename s *)
 Definition vState (full : bool) (fn t b : path) (f : fs) : value :=
   L [vO vS (f fn); (if full then vO vS (f t) else vO vLen (f t)); vO vS (f b)].
@@ -314,6 +354,7 @@ Definition run (v : value) : value :=
   | 0 => run_session false p
   | 3 => run_session true p
   | 4 => run_unwind p
+  | 5 => vR (fun l => L (map (fun kv => L [vS (fst kv); vS (snd kv)]) l)) (flat_load (gS p))
   | 1 => vS (path_join (gS (nth_v 0 p)) (gS (nth_v 1 p)))
   | 2 => vS (basename (gS p))
   | _ => L []
